@@ -6,7 +6,7 @@ package consensus
 // The objects whose fields calls into unknown code (rule sets, leader rotation, network,
 // aggregation, event handlers) are assumed not to write, except where a contract's own
 // modifies clause says otherwise.
-//@ preserveset std = Voter, Proposer, Committer, protocol.ViewStates, hotstuff.Block, hotstuff.ProposeMsg, cert.Authority, core.RuntimeConfig, blockchain.Blockchain, synchronizer.Synchronizer, synchronizer.timeoutCollector
+//@ preserveset std = Voter, Proposer, Committer, protocol.ViewStates, hotstuff.Block, hotstuff.ProposeMsg, hotstuff.QuorumCert, hotstuff.TimeoutCert, hotstuff.AggregateQC, hotstuff.TimeoutMsg, cert.Authority, core.RuntimeConfig, blockchain.Blockchain, synchronizer.Synchronizer, synchronizer.timeoutCollector
 
 // Rule sets, aggregators and disseminators are unknown code behind interfaces: they may
 // change anything except the fields of the listed types, and keep every block store
@@ -18,6 +18,7 @@ package consensus
 //@   preserves @std
 //@   ensures blockchain.storeskept() && core.cfgstable()
 
+//@ pred pwf(p *Proposer) = p.voter != nil && vwf(p.voter) && p.committer != nil && p.disseminator != nil
 //@ pred vwf(v *Voter) = v.auth != nil && cert.awf(v.auth) && v.ruler != nil && v.leaderRotation != nil && v.committer != nil && v.aggregator != nil
 
 // A proposal is accepted for voting only if its view is above the last voted (or stopped)
@@ -30,6 +31,7 @@ package consensus
 //@   ensures [extends-certified] err == nil && !cert.isGenesisHash(proposal.Block.cert.hash) ==> proposal.Block.parent == proposal.Block.cert.hash && v.auth.blockchain.blocks[proposal.Block.cert.hash].view < proposal.Block.view
 //@   ensures [no-vote-state-change] v.lastVotedView == old(v.lastVotedView)
 //@   ensures [inv] vwf(v)
+//@   ensures [stores] blockchain.entrieskept() && core.cfgstable()
 //@   preserves @std
 
 // The vote history only moves forward: StopVoting raises the mark, never lowers it.
@@ -69,11 +71,22 @@ package consensus
 //@   ensures [monotone] v.lastVotedView >= old(v.lastVotedView)
 //@   ensures [voted-this-view-or-not] v.lastVotedView == old(v.lastVotedView) || v.lastVotedView == proposal.Block.view
 //@   modifies v.lastVotedView
+//@   ensures [stores] blockchain.entrieskept() && core.cfgstable()
 //@   preserves @std
 
 //@ func (*Proposer).Propose property C03
-//@   requires p.voter != nil && vwf(p.voter) && p.committer != nil && p.disseminator != nil && hotstuff.genesisBlock != nil && proposal != nil && proposal.Block != nil
+//@   requires pwf(p) && hotstuff.genesisBlock != nil && proposal != nil && proposal.Block != nil
 //@   ensures [monotone] p.voter.lastVotedView >= old(p.voter.lastVotedView)
 //@   ensures [voted-this-view-or-not] p.voter.lastVotedView == old(p.voter.lastVotedView) || (p.voter.lastVotedView == proposal.Block.view && proposal.Block.view > old(p.voter.lastVotedView))
 //@   modifies p.voter.lastVotedView
+//@   ensures [stores] blockchain.entrieskept() && core.cfgstable()
 //@   preserves @std
+
+// CreateProposal marks the commands of the certified chain as proposed, waits for a batch
+// and asks the propose rule for a proposal. Only its frame is used by the synchronizer.
+//@ func (*Proposer).CreateProposal
+//@   trusted blocks on the command cache and calls the propose rule; only the frame is specified here
+//@   ensures err == nil ==> proposal.Block != nil
+//@   modifies p.lastProposed
+//@   preserves @std
+//@   ensures blockchain.storeskept() && core.cfgstable()
